@@ -26,6 +26,7 @@ require (
 	github.com/micro/go-micro v1.5.0 // indirect
 	github.com/miscreant/miscreant.go v0.0.0-20200214223636-26d376326b75 // indirect
 	github.com/mitchellh/mapstructure v1.1.2 // indirect
+	github.com/rakyll/statik v0.1.7 // indirect
 	go.opencensus.io v0.22.0 // indirect
 	golang.org/x/net v0.21.0 // indirect
 	golang.org/x/oauth2 v0.0.0-20190604053449-0f29369cfe45 // indirect
